@@ -143,7 +143,8 @@ def run_shard(spec, tier, seed):
             if out.exc is not None or out.ret is not True:
                 res.count('unsolved_bases')
                 continue
-            base_ans = dict(p.answers)
+            base_ans = dict(p.overrides)      # what a purpose-built filer would answer to questions the base return does not ask
+            base_ans.update(p.answers)
             # make copy amounts differ by >= $1 (and re-solve the base from the file)
             forms = p.forms()
             b0 = solve_file(year, forms, base_ans)
@@ -234,7 +235,7 @@ def run_shard(spec, tier, seed):
                     compare(f'wages+:{inc}', ans, chk, 'w-2.box_1')
             # ---- (b') a larger deductible expense never raises total tax
             present = [d for d in DEDUCTIBLE if d in base_ans]
-            for d in (present if tier != 'quick' else rng.sample(present, min(5, len(present)))):
+            for d in (present if (tier != 'quick' or spec.get('directed')) else rng.sample(present, min(5, len(present)))):
                 inc = rng.choice([1, 50, 1000, 25000])
                 ans = dict(base_ans)
                 try:
@@ -288,6 +289,23 @@ def run_shard(spec, tier, seed):
                         return f'{k} +{inc} moved refund-minus-owed by {d1 - d0:.2f}'
                     return None
                 compare(f'withholding+:{inc}', ans, chk, re.sub(r':\d+', '', k))
+            # ---- (c'') Medicare tax withheld (W-2 box 6) when Form 8959 reconciles it and finds an excess (line 22 > 0): dollar for dollar
+            w6 = sum(fnum(v_) for k_, v_ in base_ans.items() if re.match(r'^w-2:\d+\.box_6$', k_))
+            w5 = sum(fnum(v_) for k_, v_ in base_ans.items() if re.match(r'^w-2:\d+\.box_5$', k_))
+            if any(k_.startswith('8959.') for k_ in base) and w6 - 0.0145 * w5 > 1.0:      # (the excess figured from the statements themselves)
+                for k in sorted(k_ for k_ in base_ans if re.match(r'^w-2:\d+\.box_6$', k_)):
+                    inc = rng.choice([1, 25])
+                    ans = dict(base_ans)
+                    ans[k] = f'{fnum(ans[k]) + inc:.2f}'
+
+                    def chk(t, k=k, inc=inc):
+                        d0 = base.get('1040.34', 0.0) - base.get('1040.37', 0.0)
+                        d1 = t.get('1040.34', 0.0) - t.get('1040.37', 0.0)
+                        if abs((d1 - d0) - inc) > 0.011:
+                            return f'{k} +{inc} (Medicare tax withheld, reconciled on Form 8959 with an excess of {base.get("8959.22")}) moved refund-minus-owed by {d1 - d0:.2f}'
+                        return None
+                    compare(f'withholding+:{inc}', ans, chk, 'medicare/' + re.sub(r':\d+', '', k))
+                    res.count('pairs_medicare_withholding+')
             # ---- (c') the same for N.C. tax withheld (W-2 box 17 / the state boxes of the 1099s, when the state is NC)
             if 'nc_d-400.23' in base or 'nc_d-400.25' in base:
                 pairs = ((r'^w-2:\d+\.box_17$', 'box_15'), (r'^1099-int:\d+\.box_17_1$', 'box_15_1'), (r'^1099-div:\d+\.box_16_1$', 'box_14_1'),
